@@ -8,13 +8,13 @@ Bounded-exhaustive enumeration on the real ``EventSeries`` code:
            Fraction transcription of the counting rules, range [0,1], exchange
            of the two series, common time shift, time scaling (taumax = inf)
   matrix   every 3-column event matrix of length 5  x  taumax  x  lag  x
-           timestamps: event_series_analysis under every symmetrisation
-           option against the pairwise values
+           timestamps, and every 2-column matrix of length 7 (taumax 1, 2):
+           event_series_analysis under every symmetrisation option against
+           the pairwise values
   thresh   every data array (4,2) over {0,1,2}  x  method  x  quantile/value
            menu  x  threshold type: make_event_matrix (static and through the
            constructor) marks exactly x > threshold / x < threshold
 """
-import itertools
 import warnings
 
 import numpy as np
@@ -289,9 +289,8 @@ def fam_pairs(case):
 
 
 def fam_matrix(case):
-    bits, configs = case
+    T, N, bits, configs = case
     ES = _ES()
-    T, N = 5, 3
     mat = np.array([[bits >> (t * N + i) & 1 for i in range(N)]
                     for t in range(T)])
     cols = [list(mat[:, i]) for i in range(N)]
@@ -481,7 +480,8 @@ def run(ctx):
         "{1,2,inf} x lag {0,1} x timestamps {indices, %s}; a pair is "
         "non-trivial when both series have events; distinct = distinct "
         "vectors of oracle values over the 12 configurations.  matrix: every "
-        "5x3 event matrix x configurations x all symmetrisation options; "
+        "5x3 and 7x2 event matrix x configurations x all symmetrisation "
+        "options; "
         "thresh: every (4,2) array over {0,1,2} x threshold menu." % (
             Tmax, TS_NONUNI))
     cases = []
@@ -497,11 +497,17 @@ def run(ctx):
     else:
         configs = [("idx", 1, 0), ("idx", None, 0), ("nonuni", 2, 1)]
     order = sorted(range(1 << 15), key=lambda b: (bin(b).count("1"), b))
-    ctx.explore("matrix", [(b, configs) for b in order],
+    ctx.explore("matrix", [(5, 3, b, configs) for b in order],
                 desc="all 5x3 event matrices, all symmetrisations")
+    # 5 samples cannot make the two directed rates of the *symmetric* ECA
+    # window differ; two columns of length 7 can
+    order = sorted(range(1 << 14), key=lambda b: (bin(b).count("1"), b))
+    ctx.explore("matrix", [(7, 2, b, [("idx", 1, 0), ("nonuni", 2, 0)])
+                           for b in order],
+                desc="all 7x2 event matrices, all symmetrisations")
     ctx.explore("thresh", [(4, 2, c) for c in range(3 ** 8)],
                 desc="make_event_matrix on all (4,2) arrays over {0,1,2}")
-    ctx.notes.update({"pairs_Tmax": Tmax, "matrix_shape": [5, 3],
+    ctx.notes.update({"pairs_Tmax": Tmax, "matrix_shapes": [[5, 3], [7, 2]],
                       "matrix_configs": len(configs),
                       "thresh_shape": [4, 2]})
     ctx.assumptions += [
